@@ -258,6 +258,7 @@ type bEnv struct {
 	analysed map[string]int
 	finders  []*scriptFinder
 	yield    bool
+	noDiagCb bool // the tracer has no Diagnostics callback
 	boundary func(when string) // called at every callback boundary (C12 crash points)
 }
 
@@ -490,7 +491,7 @@ func (f *scriptFinder) FindDependencies(fsys fs.FS, subPath string, deps *source
 }
 
 func (e *bEnv) tracer() *sourcebundle.BuildTracer {
-	return &sourcebundle.BuildTracer{
+	t := &sourcebundle.BuildTracer{
 		RegistryPackageVersionsStart: func(ctx context.Context, p regaddr.ModulePackage) context.Context {
 			e.ev("vs:" + X(p.String()))
 			return ctx
@@ -530,6 +531,10 @@ func (e *bEnv) tracer() *sourcebundle.BuildTracer {
 		},
 		Diagnostics: func(ctx context.Context, diags sourcebundle.Diagnostics) { e.ev(fmt.Sprintf("td:%d", len(diags))) },
 	}
+	if e.noDiagCb {
+		t.Diagnostics = nil
+	}
+	return t
 }
 
 // ---------- running a build ----------
